@@ -205,6 +205,42 @@ def check_case(out: Outcome, case, tag):
         out.sample({'tag': tag, **case, 'states': states.tolist(), 'inner_states': inner.tolist()})
 
 
+def check_auto_radius(out: Outcome, rng):
+    """_compute_site_radius on its own: for every vibration amplitude the spheres must not overlap under the
+    TRUE minimum-image site separation (non-orthogonal cells, site pairs whose nearest image is not the
+    per-axis rounded one)"""
+    name = str(rng.choice(['hexlike', 'skew', 'tric', 'tric2', 'mono', 'cubic']))
+    lat = np.array(gem.LATTICES[name], float)
+    if rng.random() < 0.5:
+        lat = gem.exact_orientation(rng, lat)
+    ns = int(rng.integers(2, 6))
+    grid = rng.permutation(20 ** 3)[:ns]
+    sites = np.array([[(g // 400) / 20, ((g // 20) % 20) / 20, (g % 20) / 20] for g in grid])
+    traj = gem.make_traj(np.zeros((2, 1, 3)), lat, ['Li'])
+    st = gem.make_sites(lat, sites)
+    mp = core.drive1(f'minpair {gem.enc_m3(lat)} {gem.enc_v3s(sites)}').split()[1]
+    dmin_sq = core.dec_rat(mp)
+    if dmin_sq < 0:
+        return
+    dmin = math.sqrt(float(dmin_sq))
+    for vib in (0.2, 0.6, 1.5, 5.0):
+        out.evaluations += 1
+        case = {'auto_radius': True, 'lattice_name': name, 'lattice': lat.tolist(), 'sites': sites.tolist(), 'vibration_amplitude': vib}
+        try:
+            r = float(_compute_site_radius(trajectory=traj, sites=st, vibration_amplitude=vib))
+        except ValueError:
+            if not (2 * (0.5 * dmin - 0.005) < 0.5 + 1e-9):
+                out.fail('property', 'auto-radius-error-branch', case, expected=f'no error: smallest separation {dmin:.4f}', observed='ValueError')
+            continue
+        want = 2 * vib if dmin >= 4 * vib else 0.5 * dmin - 0.005
+        if not (4 * Fraction(r) ** 2 < dmin_sq):
+            out.fail('property', 'auto-radius-spheres-overlap', case, expected=f'2r < {dmin:.6f}', observed=r)
+        elif not math.isclose(r, want, rel_tol=1e-9, abs_tol=1e-12):
+            out.fail('property', 'auto-radius-value', case, expected=want, observed=r)
+    if name not in ('cubic',) and ns >= 2:
+        out.nontrivial.add(('auto', json.dumps(sites.tolist()), name))
+
+
 def corpus():
     d = core.CORPUS / PID
     return [json.loads(p.read_text()) for p in sorted(d.glob('*.json'))] if d.exists() else []
@@ -217,6 +253,8 @@ def run(tier: str, seed: int, scale: int) -> Outcome:
         check_case(out, case, 'corpus')
     for _ in range((400 if tier == 'quick' else 4000) * scale):
         check_case(out, gen_case(rng, 8 if tier == 'quick' else 16), 'random')
+    for _ in range((200 if tier == 'quick' else 2000) * scale):
+        check_auto_radius(out, rng)
     return out
 
 
@@ -228,6 +266,8 @@ def classify(f: core.Failure, finding: dict) -> bool:
 
 def replay(case):
     out = Outcome()
+    if case.get('auto_radius'):
+        return True, 'auto-radius cases: re-run ./check C02 quick with the recorded seed'
     check_case(out, case, 'replay')
     fails = [f for f in out.failures if f.kind == 'property']
     text = '\n'.join(f'{f.clause}: expected {str(f.expected)[:200]} observed {str(f.observed)[:200]} {f.note}' for f in fails) or 'no failure'
